@@ -7,7 +7,7 @@ PID = "C20"
 MODULE, PKG, BIN = "cesium", "./verifh/c20", "c20"
 COQ_IMPORTS = "From Synnax Require Import Common.Base Cesium.Relay Monitors.Mon_C20."
 CASE_TYPE = "case_t"
-COUNTS = {"quick": 400, "thorough": 3000}
+COUNTS = {"quick": 700, "thorough": 4000}
 SHARD = 20
 RACE = True
 PROCS = 4
@@ -283,7 +283,9 @@ def c_out(o, r):
 
 def full_script(case, r):
     ops = list(case["ops"]) + list(r.get("tear_ops") or [])
-    return ops[:len(r.get("ops") or [])], (r.get("ops") or [])
+    outs = r.get("ops") or []
+    pairs = [(o, x) for o, x in zip(ops, outs) if o["op"] != "settle"]   # settle: timing only
+    return [o for o, _ in pairs], [x for _, x in pairs]
 
 
 def to_coq(case, r):
@@ -405,7 +407,9 @@ RULE = ("seeded sequential driver scripts of 10-34 operations (real relay / stre
         "0-3 streamers with arbitrary key sets (also empty, also unknown keys); operations: open/close writer, write (subset of "
         "held keys, index groups whole; 30% of scripts carry malformed steps: never-opened key, duplicate key, partial index "
         "group, wrong data type, unknown channel, wrong authority count), set-authority, open / re-subscribe / close streamer, "
-        "pause / resume consumer (15% of scripts, slow-consumer timeout 1.5 s there, 5 s otherwise), barrier, DB close (12%, "
+        "pause / resume consumer (15% of scripts, slow-consumer timeout 1.5 s there, 5 s otherwise), barrier, background writer "
+        "(a goroutine issuing 2-4 Writes concurrently with the next 1-4 driver operations — writes of other writers, streamer "
+        "open / re-subscribe / close, DB close — then join; ~40% of scripts), DB close (12%, "
         "followed by further writes and operations); relay capacity from {1,2,3,8,1000}, streamer outlet buffer from {0,1,4}. "
         "Non-trivial = frames of >=2 writers received, some streamer received >=3 frames, some write had keys excluded as "
         "unauthorized, and a re-subscribe / streamer close / pause / DB close took effect; distinct by hash.")
@@ -417,7 +421,7 @@ TRUSTED = ["hook cesium/export_verif_c20.go (WithVerifStreamingConfig: relay cap
            "the monitor computes 'authorized' from the script with the control rule of C05 (highest authority, earliest open; "
            "virtual channels shared, unary channels exclusive)"]
 ASSUMES = ["a consumer that is never paused is 'always ready': it takes a frame within the slow-consumer timeout (>= 1.5 s in every case)",
-           "writers are opened in Sync mode, so a returned Write has pushed its frame into the relay inlet (asynchronous writers are not modelled)",
+           "writers are opened in Sync mode, so a returned Write has pushed its frame into the relay inlet (asynchronous writers are not modelled); concurrency between writers is exercised by background goroutines whose Writes interleave arbitrarily with the driver's operations (hidden model steps)",
            "index groups are opened and written whole; authorities < 256; writer / streamer ids are not reused",
            "delivery of one frame to all connected streamers is one atomic model step (the relay goroutine serves them sequentially "
            "and accepts no connect / disconnect meanwhile)"]
